@@ -77,6 +77,12 @@ class Project:
         node = self.function_ast(key)
         return hashlib.sha256(ast.dump(strip_docstring(node)).encode()).hexdigest()[:16]
 
+    def function_shape(self, key: str) -> list:
+        """Loop statements of the function in source order (the sidecar loop specifications are keyed by this ordinal)."""
+        loops = [n for n in ast.walk(self.function_ast(key)) if isinstance(n, (ast.For, ast.AsyncFor, ast.While))]
+        loops.sort(key=lambda n: (n.lineno, n.col_offset))
+        return [type(n).__name__ for n in loops]
+
     def spec_ast(self, name: str):
         for n in self._spec_ast.body:
             if isinstance(n, ast.FunctionDef) and n.name == name:
